@@ -136,3 +136,194 @@ Proof.
   f_equal. rewrite <- (app_nil_r (Bs pre P')). rewrite C01_EqFile.Bs_flat. unfold flat. rewrite flat_map_snoc.
   fold X. rewrite <- !app_assoc. reflexivity.
 Qed.
+
+(* the path loop of a file URL started behind "pre" + the segments P0 + '/' *)
+Lemma loop_from_segments_f dbg pre r P0 : usv_list r -> forallb no_slash P0 = true ->
+  fpath_ok true (ntnl r) P0 [] = true ->
+  forallb C06_WFI.no_qh (flat P0) = true ->
+  let P1 := fst (spath_f (ntnl r) P0 []) in
+  strip_stable P1 = true ->
+  parse_path dbg CUrlParser STFile true (nlen pre) (Bs pre P0) r = POk (pre ++ flat P1, true, cbb_rest r)
+  /\ snd (spath_f (ntnl r) P0 []) = ntnl (cbb_rest r)
+  /\ forallb C06_WFI.no_qh (flat P1) = true
+  /\ forallb no_slash P1 = true /\ P1 <> [].
+Proof.
+  intros Hur Hns Hok Hqh P1 Hst.
+  assert (pend_ok []) as Hp0 by (split; [constructor | reflexivity]).
+  destruct (loop_exact_f pre dbg r P0 [] [] true Hur Hp0 Hns eq_refl Hok) as (segs & last & Hloop & Hfst & Hsnd).
+  cbn [app rev utf8_encode flat_map encode] in Hfst, Hsnd.
+  rewrite app_nil_r in Hloop.
+  assert (forallb no_slash P1 = true) as Hns1 by (unfold P1; apply spath_f_no_slash; [exact Hns | reflexivity]).
+  split; [|split; [exact Hsnd|split; [|split]]].
+  - unfold parse_path. rewrite Hloop. rewrite C01_EqFile.Bs_flat, <- Hfst. fold P1.
+    rewrite fixup_flat by exact Hns1. apply strip_f_stable in Hst. rewrite Hst. reflexivity.
+  - apply flat_no_qh. unfold P1. apply spath_f_no_qh; [exact (segs_no_qh_of_flat P0 Hqh) | reflexivity].
+  - exact Hns1.
+  - unfold P1. rewrite Hfst. intros K. apply app_eq_nil in K. destruct K as [_ K]. discriminate K.
+Qed.
+
+Lemma wqf_plain_f se ue hs he hi po ps s rest : se + 3 <= ps ->
+  UrlRecord.starts_with s_css (nskipn se s) = true ->
+  with_query_and_fragment None CUrlParser STFile se ue hs he hi po ps s rest
+  = (' (s2, qs, fs) <~ parse_query_and_fragment None CUrlParser STFile se s rest ;;
+     POk (mkUrl s2 se ue hs he hi po ps qs fs)).
+Proof.
+  intros H Hc. unfold with_query_and_fragment.
+  replace (ps =? se + 1) with false by lia.
+  assert ((ps =? se + 3) && list_eqb (nfirstn (ps - se) (nskipn se s)) [58; 47; 46] = false) as ->.
+  { destruct (ps =? se + 3) eqn:E; [|reflexivity]. cbn [andb]. apply N.eqb_eq in E. rewrite E.
+    replace (se + 3 - se) with 3 by lia. apply starts_with_split in Hc. rewrite Hc. reflexivity. }
+  cbn [pbind]. reflexivity.
+Qed.
+
+(* ================= the result record is related to the Standard's ================= *)
+Section TransportF.
+Variable dbg : bool.
+Variable shs : spec_host -> list N.
+
+(* related_auth_path_g (Proofs/C01_EqRelPath.v) without its hypothesis "the scheme is not file": the clause of
+   spec_valid for file URLs (no credentials, no port) is inherited from the base *)
+Theorem related_auth_path_any b sb h Pn q f :
+  related dbg shs b sb -> su_host sb = Some h ->
+  forallb C06_WFI.no_qh (flat_map (fun s => 47 :: s) Pn) = true -> Pn <> [] ->
+  match q with Some Q => forallb no_h Q = true | None => True end ->
+  related dbg shs (auth_path_url b (flat_map (fun s => 47 :: s) Pn) q f) (rel_url sb Pn q f).
+Proof.
+  intros R Eh HT HPn Hq'.
+  pose proof (rel_wf _ _ _ _ R) as W.
+  assert (has_authority_b b = true) as Ha by (rewrite (related_host_iff dbg shs b sb R), Eh; reflexivity).
+  set (T := flat_map (fun s => 47 :: s) Pn) in *.
+  assert (T = [] \/ exists r, T = 47 :: r) as HT2.
+  { right. unfold T. destruct Pn as [|p0 Pr]; [contradiction|]. eexists. reflexivity. }
+  destruct (auth_path_record dbg b T q f W Ha HT HT2 Hq') as (W' & SF & Pth & Qy & Fr).
+  assert (ser (auth_path_url b T q f) = (nfirstn (path_start b) (ser b) ++ T) ++ qf_text q f) as EsU by reflexivity.
+  assert (query_start (auth_path_url b T q f) = qf_qs (nlen (nfirstn (path_start b) (ser b) ++ T)) q) as EqU by reflexivity.
+  assert (fragment_start (auth_path_url b T q f) = qf_fs (nlen (nfirstn (path_start b) (ser b) ++ T)) q f) as EfU by reflexivity.
+  assert (scheme_end (auth_path_url b T q f) = scheme_end b) as EseU by reflexivity.
+  set (U := auth_path_url b T q f) in *.
+  destruct SF as (S1 & S2 & S3 & S4 & S5).
+  destruct (accessors_reconcatenate dbg b W)
+    as (sch & un & pw & hs & pth & qb & fb & Es1 & Eun & Epw & Ehs & Ept & Eq & Ef & _).
+  pose proof (api_by_accessors dbg b W sch un pw hs pth qb fb Es1 Eun Epw Ehs Ept Eq Ef) as Ab.
+  assert (api_of_model dbg U = Some (api_of_parts (ser U) sch un pw hs (port U) T q f)) as Ab'.
+  { apply (api_by_accessors dbg _ W'); congruence. }
+  rewrite (rel_api _ _ _ _ R) in Ab. unfold api_of_parts, spec_api_list in Ab.
+  injection Ab as E1 E2 E3 E4 E5 E6 E7 E8 E9 E10.
+  destruct (related_pre dbg shs b sb R) as [_ Epre].
+  pose proof (path_start_le_len b W) as Lps.
+  set (pre := nfirstn (path_start b) (ser b)) in *.
+  assert (nlen pre = path_start b) as Lpre by (apply nlen_nfirstn; exact Lps).
+  assert (forall q' f', spec_front shs (rel_url sb Pn q' f') = pre) as EF.
+  { intros q' f'. rewrite Epre. unfold spec_front, includes_credentials, rel_url.
+    cbn [su_scheme su_host su_username su_password su_port]. rewrite Eh. reflexivity. }
+  pose proof (wf_auth_facts b W Ha) as F.
+  pose proof (af_ue F) as B1. pose proof (af_hs F) as B2. pose proof (af_he F) as B3. pose proof (af_ps F) as B4.
+  assert (agree_pre (path_start b) (ser b) (ser U)) as Pre.
+  { rewrite EsU, <- app_assoc. apply agree_pre_nfirstn. exact Lps. }
+  constructor.
+  - exact W'.
+  - rewrite Ab'. f_equal. unfold api_of_parts, spec_api_list. rewrite S5.
+    apply list10_eq; [ | symmetry; exact E2 | symmetry; exact E3 | symmetry; exact E4 | symmetry; exact E5
+                       | symmetry; exact E6 | symmetry; exact E7 | reflexivity | | ].
+    + rewrite EsU. unfold get_href. rewrite serialize_url_front, EF.
+      unfold rel_url, serialize_path. cbn [su_path su_query su_fragment]. fold T. unfold qf_text.
+      rewrite <- !app_assoc. reflexivity.
+    + destruct q as [[|a r]|]; reflexivity.
+    + destruct f as [[|a r]|]; reflexivity.
+  - (* before the fragment *)
+    rewrite serialize_url_front, EF. unfold rel_url, serialize_path. cbn [su_path su_query su_fragment]. fold T.
+    rewrite app_nil_r. unfold b_before_fragment. rewrite EfU, EsU. unfold qf_text.
+    destruct f as [y|]; cbn [qf_fs qf_ftext].
+    + rewrite <- nlen_app. rewrite app_assoc. rewrite nfirstn_app_exact. rewrite <- app_assoc. reflexivity.
+    + rewrite app_nil_r, <- app_assoc. reflexivity.
+  - (* before the query *)
+    rewrite serialize_url_front.
+    assert (set_query (rel_url sb Pn q f) None = rel_url sb Pn None f) as -> by reflexivity.
+    rewrite EF. unfold rel_url, serialize_path. cbn [su_path su_query su_fragment qf_qtext app]. fold T.
+    rewrite app_nil_r. unfold b_before_query. rewrite EqU, EfU, EsU. unfold qf_text.
+    destruct q as [x|]; destruct f as [y|]; cbn [qf_qs qf_fs qf_qtext qf_ftext].
+    + apply nfirstn_app_exact.
+    + apply nfirstn_app_exact.
+    + cbn [app]. rewrite nlen_nil, N.add_0_r. apply nfirstn_app_exact.
+    + cbn [app]. apply app_nil_r.
+  - (* cannot be a base *)
+    rewrite (cannot_be_a_base_eval _ W'). cbn [has_opaque_path su_path rel_url]. f_equal.
+    rewrite EseU. rewrite (pre_byte_eqb (path_start b) _ _ _ _ Pre) by lia.
+    unfold has_authority_b in Ha. destruct (css_bytes _ _ Ha) as (_ & C2 & _).
+    assert (byte_eqb (ser b) (scheme_end b + 1) 47 = true) as -> by (apply byte_eqb_true_iff; exact C2). reflexivity.
+  - (* scheme *)
+    transitivity (b_scheme b); [|exact (rel_sch _ _ _ _ R)]. unfold b_scheme. rewrite EseU.
+    apply (pre_firstn _ _ _ _ Pre). lia.
+  - destruct (rel_valid _ _ _ _ R) as [_ V]. split; [intros H; discriminate H|]. exact V.
+Qed.
+
+End TransportF.
+
+(* ================= the arm: parse_path + with_query_and_fragment with the offsets of the base ================= *)
+Section ArmsF.
+Variable dbg : bool.
+Variable shs : spec_host -> list N.
+
+Definition arm_expr_f (b : url) (s0 r : list N) : pres url :=
+  ' (s, _, rem) <~ parse_path dbg CUrlParser STFile true (path_start b) s0 r ;;
+  with_query_and_fragment None CUrlParser STFile (scheme_end b) (username_end b) (host_start b) (host_end b)
+                          (hosti b) (port b) (path_start b) s rem.
+
+Lemma file_tail_rel_url sb P0 t l : su_scheme sb = str_file -> spec_valid sb ->
+  snd (spath_f t P0 []) = ntnl l ->
+  match l with [] => True | c :: _ => C02_Parts.is_qh c = true /\ is_tnl c = false end ->
+  file_tail (fkeep sb P0) (spath_f t P0 []) = rel_url sb (fst (spath_f t P0 [])) (pqf_q STFile l) (pqf_f l).
+Proof.
+  intros Hs V Hsnd Hh. unfold file_tail. rewrite Hsnd, (fkeep_rel_keep sb P0 Hs V).
+  set (P1 := fst (spath_f t P0 [])).
+  assert (set_path (rel_keep sb P0) (SPList P1) = rel_keep sb P1) as -> by reflexivity.
+  rewrite tail_url_f; [reflexivity | | reflexivity | reflexivity | exact Hh].
+  unfold is_special, rel_keep. cbn [su_scheme]. rewrite Hs. reflexivity.
+Qed.
+
+Theorem path_arm_related_f b sb h P0 r :
+  related dbg shs b sb -> has_opaque_path sb = false -> su_scheme sb = str_file -> su_host sb = Some h ->
+  usv_list r -> forallb no_slash P0 = true -> forallb C06_WFI.no_qh (flat P0) = true ->
+  fpath_ok true (ntnl r) P0 [] = true -> strip_stable (fst (spath_f (ntnl r) P0 [])) = true ->
+  let su := file_tail (fkeep sb P0) (spath_f (ntnl r) P0 []) in
+  exists u, oob (U32_MAX_P < nlen (ser u)) (arm_expr_f b (Bs (nfirstn (path_start b) (ser b)) P0) r) u
+            /\ related dbg shs u su /\ spec_base_ok su = true.
+Proof.
+  intros R Hop Hs Eh Hur Hns0 Hqh0 Hok Hst su.
+  pose proof (rel_wf _ _ _ _ R) as W. pose proof (path_start_le_len b W) as Lps.
+  set (pre := nfirstn (path_start b) (ser b)).
+  assert (nlen pre = path_start b) as Lpre by (apply nlen_nfirstn; exact Lps).
+  destruct (loop_from_segments_f dbg pre r P0 Hur Hns0 Hok Hqh0 Hst) as (Hpp & Hsnd & Hqh1 & Hns1 & Hne1).
+  rewrite Lpre in Hpp.
+  set (P1 := fst (spath_f (ntnl r) P0 [])) in *.
+  set (T := flat P1) in *.
+  set (rest := cbb_rest r) in *.
+  set (q := pqf_q STFile rest). set (f := pqf_f rest).
+  assert (usv_list rest) as Hurest by (apply usv_cbb_rest; exact Hur).
+  assert (su = rel_url sb P1 q f) as ES.
+  { unfold su. rewrite (file_tail_rel_url sb P0 (ntnl r) rest Hs (rel_valid _ _ _ _ R) Hsnd (cbb_rest_head r)). reflexivity. }
+  rewrite ES.
+  assert (spec_base_ok (rel_url sb P1 q f) = true) as HBok.
+  { unfold spec_base_ok, rel_url. cbn [su_scheme Whatwg.path_segments su_path]. rewrite Hs, Hns1. reflexivity. }
+  assert (match ntnl rest with [] => True | c :: _ => is_qh c = true end) as Hhead.
+  { pose proof (cbb_rest_head r) as Hh. fold rest in Hh. destruct rest as [|d dr]; [exact I|]. destruct Hh as [Hh1 Hh2].
+    rewrite ntnl_cons by exact Hh2. exact Hh1. }
+  assert (has_authority_b b = true) as Ha by (rewrite (related_host_iff dbg shs b sb R), Eh; reflexivity).
+  pose proof (wf_auth_facts b W Ha) as F.
+  pose proof (af_ue F) as B1. pose proof (af_hs F) as B2. pose proof (af_he F) as B3. pose proof (af_ps F) as B4.
+  unfold arm_expr_f. fold pre. rewrite Hpp. cbn [pbind].
+  exists (auth_path_url b T q f). split; [|split; [|exact HBok]].
+  - rewrite wqf_plain_f; [|lia|].
+    2:{ unfold has_authority_b in Ha. rewrite <- Ha.
+        apply (pre_starts_with (path_start b)); [|change (nlen s_css) with 3; lia].
+        apply agree_pre_nfirstn. exact Lps. }
+    eapply oob_bind.
+    { apply (pqf_oob None (U32_MAX_P < nlen (ser (auth_path_url b T q f)))); [exact Hurest | reflexivity | exact Hhead |].
+      fold q f. intros Hlt. exact Hlt. }
+    fold q f. right. reflexivity.
+  - apply (related_auth_path_any dbg shs b sb h P1 q f R); [exact Eh | exact Hqh1 | exact Hne1 |].
+    pose proof (pqf_q_clean_f rest Hurest) as Hq. fold q in Hq. destruct q as [Q|]; [|exact I].
+    exact (clean_query_no_h STFile Q Hq).
+Qed.
+
+End ArmsF.
